@@ -47,6 +47,15 @@ class _Bg(threading.Thread):
         return self.res
 
 
+def _tuples(out, tag, what):
+    """PrintT tuples of a trace spec, robust against TLC's line wrapping; guarded against missed ones."""
+    t = vlib.tuples(out, tag)
+    if len(t) != out.count('"%s"' % tag):
+        raise vlib.Infra("%s: parsed %d %s tuples but the TLC output mentions the tag %d times"
+                         % (what, len(t), tag, out.count('"%s"' % tag)))
+    return t
+
+
 def run(ctx, pid):
     if pid == "C32":
         return run_c32(ctx)
@@ -91,7 +100,7 @@ def run_c32(ctx):
     mon = ctx.tlc(SPEC, "Trace_PlanMon.cfg", dfs=True, files={"trace.ndjson": trace}, timeout=1800 if quick else 3000, heap="8g")
     if mon.depth != nlines + 1:
         raise vlib.Infra("monitor did not consume the whole trace (%d of %d)" % (mon.depth - 1, nlines))
-    mism = re.findall(r'<<"MISMATCH", (\d+), "(\w+)">>', mon.out)
+    mism = [(int(t[0]), str(t[1])) for t in _tuples(mon.out, "MISMATCH", "Trace_PlanMon")]
     conf = conf_bg.get()
     drift = None
     if conf.error:
@@ -99,7 +108,7 @@ def run_c32(ctx):
     elif conf.depth != nlines + 1:
         drift = "conformance spec stopped at line %d of %d" % (conf.depth, nlines)
     else:
-        d = re.findall(r'<<"DRIFT", (\d+), "(\w+)">>', conf.out)
+        d = _tuples(conf.out, "DRIFT", "Trace_PlanConf")
         if d:
             drift = "%d lines differ from the transcription, first: line %s (%s)" % (len(d), d[0][0], d[0][1])
     mc = mc_bg.get()
@@ -184,7 +193,7 @@ def _tla_records(text):
 
 def counterexample_behaviour(ce):
     """Turn the error trace of MC_Membership into a behaviour for the driver."""
-    m = re.search(r"chg = <<(.*?)>>", ce)
+    m = re.search(r"chg = <<(.*?)>>", ce, re.S)
     if not m:
         return None
     chg = [_tla_records(x) for x in re.findall(r"\[[^\]]*\]", m.group(1))]
@@ -264,7 +273,7 @@ def run_c34(ctx):
                       heap="12g", name="Trace_MembershipMon-%d" % k)
         if mon.depth != n + 1:
             raise vlib.Infra("monitor did not consume the whole trace part %d (%d of %d)" % (k, mon.depth - 1, n))
-        mism += [(int(a) + off, b, c) for a, b, c in re.findall(r'<<"MISMATCH", (\d+), "(\w+)", "([^"]*)">>', mon.out)]
+        mism += [(int(t[0]) + off, str(t[1]), str(t[2])) for t in _tuples(mon.out, "MISMATCH", "Trace_MembershipMon")]
         conf = conf_bg.get()
         if drift is None:
             if conf.error:
